@@ -261,6 +261,14 @@ class Describer:
                 (root, proj) = next(iter(e[1]))
                 if root[0] == "loc" and not proj and not (1 <= root[1] <= self.fn.argc):
                     sd = self.fn.single_def(root[1])
+                    if sd is not None and root[1] not in self.R.mut_borrowed and sd[1] != "term" and sd[2].get("k") == "assign":
+                        # a local array written once with constants and only ever read: the constant itself
+                        rv0 = sd[2]["rv"]
+                        if rv0["k"] == "repeat" and rv0["op"].get("k") == "const" and isinstance(rv0.get("n"), int):
+                            return ("constarr", rv0["n"], rv0["op"].get("val") if rv0["n"] else None)
+                        if rv0["k"] == "aggregate" and rv0.get("agg") == "array" and all(o.get("k") == "const" for o in rv0["ops"]):
+                            vals = tuple(o.get("val") for o in rv0["ops"])
+                            return ("constarr", len(vals), vals if len(set(vals)) > 1 else (vals[0] if vals else None))
                     if sd is not None and root[1] not in self._busy:
                         self._busy.add(root[1])
                         try:
